@@ -135,8 +135,26 @@ def exec_deform(cfg, pts, conc, D):
         interp = sch[0] if (conc.get('interp_as') == 'str' and len(set(sch)) == 1) else list(sch)
         templ = sp.element(L.np_values(cfg['f'], sp.shape, dt))
         rsp = sp.real_space
-        disp = rsp.tangent_bundle.element([np.array([L.flt(v) for v in d], dtype=rsp.dtype).reshape(sp.shape)
-                                           for d in cfg['disp']])
+        comps = []
+        for d in cfg['disp']:
+            V = np.array([L.flt(v) for v in d], dtype=rsp.dtype).reshape(sp.shape)      # C order = order of space.points()
+            lay = conc.get('layout', 'C')
+            if lay == 'F':
+                comps.append(rsp.element(V, order='F'))
+            elif lay == 'strided':
+                big = np.full(tuple(2 * n for n in sp.shape), np.nan, dtype=rsp.dtype)
+                view = big[tuple(slice(None, None, 2) for _ in sp.shape)]
+                view[...] = V
+                comps.append(rsp.element(view))
+            elif lay == 'FT':                   # Fortran-ordered via a transposed C array
+                comps.append(rsp.element(np.ascontiguousarray(V.T).T))
+            else:
+                comps.append(rsp.element(V))
+        disp = rsp.tangent_bundle.element(comps)
+        if not all(np.array_equal(c.asarray(), np.array([L.flt(v) for v in d]).reshape(sp.shape)) for c, d in zip(disp, cfg['disp'])):
+            raise MachineryError('displacement element does not hold the requested values')
+        if conc.get('templ_layout') == 'F':
+            templ = sp.element(templ.asarray(), order='F')
         api = conc['api']
         if api == 'linear_deform':
             r = linear_deform(templ, disp, interp=interp)
@@ -189,8 +207,16 @@ def compare_hist(ev, hist):
             out.append(('raised', j))
         elif len(c['obs']) != len(h['exp']):
             out.append(('length', j))
-        elif any(d and o != e for o, e, d in zip(c['obs'], h['exp'], h['def'])):
-            out.append(('hist', j))
+        else:
+            wrong = any(d and o != e for o, e, d in zip(c['obs'], h['exp'], h['def']))
+            if wrong:
+                out.append(('hist', j))
+            if c['grid'] != ev['cvs']:
+                out.append(('grid', j))
+            if c['frame']:
+                out.append(('frame', j))
+            if not wrong and c['obs_end'] and any(d and o != e for o, e, d in zip(c['obs_end'], h['exp'], h['def'])):
+                out.append(('changed-later', j))
     return out
 
 
@@ -260,6 +286,8 @@ def signature(ev, plan, clause, k=0, failing=()):
     if plan['k'] == 'resample':
         cfg = plan.get('shapes')
         sig['shapes'] = cfg or '-'
+    if plan['k'] == 'deform':
+        sig['layout'] = conc.get('layout', 'C')
     return sig
 
 
@@ -366,9 +394,12 @@ def fn_class(fn):
 def plans_hist(case, rot, thorough):
     obj, hist = case['obj'], case['hist']
     variants = [(r, p) for r in (False, True) for p in ('mesh', 'array')]
-    variants = [variants[rot % 4]]        # one rotating (wrapper reuse, point-passing) variant per behaviour
-    return [({'k': 'hist', 'obj': obj, 'hist': hist, 'fnclass': fn_class(obj['fn']), 'D': 1,
-              'conc': {'conv': obj['conv'], 'reuse_sf': r, 'points': p}}, hist, None) for r, p in variants]
+    r, p = variants[rot % 4]              # one rotating (wrapper reuse, point-passing, space sharing) variant per behaviour
+    single = any(len(cv) == 1 for cv in obj['cvs'])
+    conc = {'conv': obj['conv'], 'reuse_sf': r, 'points': p, 'spaces': ['siblings', 'independent', 'siblings', 'fresh'][(rot // 4) % 4],
+            'degenerate': bool(single and (rot // 2) % 3 == 0)}
+    return [({'k': 'hist', 'obj': obj, 'hist': hist, 'fnclass': fn_class(obj['fn']) + ('/singleton' if single else ''), 'D': 1,
+              'conc': conc}, hist, None)]
 
 
 def plans_resample(case, rot, thorough):
@@ -390,12 +421,23 @@ def plans_deform(case, rot, thorough):
     D = L.lcm_den(exp, L.lcm_den(cfg['f']))
     real = L.is_real_vals(cfg['f'])
     dts = (['float64'] + (['float32'] if D <= 256 else [])) if real else ['complex128']
+    # (in-place evaluation of the two operator classes is the open finding KF-C03-3: they are called out-of-place)
     apis = ['linear_deform', 'linear_deform_out', 'LinDeformFixedTempl', 'LinDeformFixedDisp']
+    layouts = ['C', 'F', 'strided', 'FT']
     out = []
-    for j, dt in enumerate(dts):
-        for api in (apis if thorough else [apis[(rot + j) % 4], apis[(rot + j + 1) % 4]]):
-            out.append(({'k': 'deform', 'cfg': cfg, 'pts': q['pts'], 'D': D, 'schemes': cfg['schemes'],
-                         'conc': {'api': api, 'dtype': dt, 'interp_as': ['str', 'list'][(rot + j) % 2]}}, exp, None))
+    combos = [(dt, api, lay) for dt in dts for api in apis for lay in layouts]
+    if not thorough:        # quick: rotate; every case still gets a C- and an F-ordered displacement
+        n = len(combos)
+        pick = [(rot * 5) % n, (rot * 5 + 7) % n]
+        combos = [combos[i] for i in pick]
+        if not any(lay in ('F', 'FT') for _, _, lay in combos):
+            combos.append((dts[rot % len(dts)], apis[rot % 4], 'F'))
+        if not any(lay == 'C' for _, _, lay in combos):
+            combos.append((dts[0], apis[(rot + 1) % 4], 'C'))
+    for j, (dt, api, lay) in enumerate(combos):
+        out.append(({'k': 'deform', 'cfg': cfg, 'pts': q['pts'], 'D': D, 'schemes': cfg['schemes'],
+                     'conc': {'api': api, 'dtype': dt, 'interp_as': ['str', 'list'][(rot + j) % 2], 'layout': lay,
+                              'templ_layout': 'F' if (rot + j) % 3 == 0 else 'C'}}, exp, None))
     return out
 
 
@@ -644,7 +686,7 @@ def run(ctx):
     jobs.append(('nonvacuity', 'MC_Interp_bogus.cfg', {'INTERP_MODE': 'interp1', 'INTERP_BIG': '0', 'OUT_FILE': os.devnull}, 1))
     # call histories on one function object: all sequences of <= 3 (quick: the decorated core 3, the rest 2) calls
     HSETS = [('deco-core', '3', 'all'), ('deco-rest', '2' if quick else '3', 'all'), ('other', '2' if quick else '3', 'all'),
-             ('view', '3', 'few' if quick else 'all')]
+             ('view', '3', 'few' if quick else 'all'), ('single' if quick else 'single-all', '3', 'two' if quick else 'few')]
     for hs, hl, hd in HSETS:
         jobs.append(('hist-' + hs, 'MC_SampleHist_check.cfg',
                      {'HIST_SET': hs, 'HIST_LEN': hl, 'HIST_DTS': hd, 'OUT_FILE': os.path.join(work, 'exp_hist-%s.ndjson' % hs)}, 1))
@@ -689,7 +731,7 @@ def run(ctx):
                 tasks.append((m, cases[i:i + step], ctx.seed + i, not quick))
     for hs, hl, hd in HSETS:
         with open(os.path.join(work, 'exp_hist-%s.ndjson' % hs)) as f:
-            cases = [json.loads(l) for l in f if l.strip()]
+            cases = [json.loads(l) for l in sorted(set(l for l in f if l.strip()))]       # (TLC may write a state twice)
         if not cases:
             raise MachineryError('empty export for history set ' + hs)
         nlines['hist-' + hs] = len(cases)
@@ -697,6 +739,8 @@ def run(ctx):
             # quick tier replays a structural subset of the length-3 behaviours: the middle step is an in-place call (any value
             # type) or an overwrite; every (first call, last call) pair stays covered. TLC still enumerates and checks all of them.
             cases = [c for c in cases if len(c['hist']) < 3 or c['hist'][1]['kind'] in ('mutate', 'inplace')]
+            if hs == 'single':      # singleton-axis objects: call - overwrite - call is the pattern that matters
+                cases = [c for c in cases if c['hist'][1]['kind'] == 'mutate']
         nlines['hist-' + hs + '-replayed'] = len(cases)
         for i in range(0, len(cases), 400):
             tasks.append(('hist', cases[i:i + 400], ctx.seed + i // 400, not quick))
